@@ -51,11 +51,15 @@ def _qderiv_actuator_passive_vel(
   actuator_actearly: wp.array[bool],
   actuator_forcelimited: wp.array[bool],
   actuator_forcerange: wp.array2d[wp.vec2],
+  actuator_ctrllimited: wp.array[bool],
+  actuator_ctrlrange: wp.array2d[wp.vec2],
   # Data in:
   act_in: wp.array2d[float],
   ctrl_in: wp.array2d[float],
   act_dot_in: wp.array2d[float],
   actuator_force_in: wp.array2d[float],
+  # In:
+  dsbl_clampctrl: int,
   # Out:
   vel_out: wp.array2d[float],
 ):
@@ -161,7 +165,12 @@ def _qderiv_actuator_passive_vel(
       vel += gain * act
   else:
     if gain != 0.0:
-      vel += gain * ctrl_in[worldid, actid]
+      # the force uses the control clamped to ctrlrange
+      ctrl = ctrl_in[worldid, actid]
+      if actuator_ctrllimited[actid] and not dsbl_clampctrl:
+        ctrlrange = actuator_ctrlrange[worldid % actuator_ctrlrange.shape[0], actid]
+        ctrl = wp.clamp(ctrl, ctrlrange[0], ctrlrange[1])
+      vel += gain * ctrl
 
   vel_out[worldid, actid] = vel
 
@@ -1148,10 +1157,13 @@ def deriv_smooth_vel(m: Model, d: Data, out: wp.array2d[float]):
           m.actuator_actearly,
           m.actuator_forcelimited,
           m.actuator_forcerange,
+          m.actuator_ctrllimited,
+          m.actuator_ctrlrange,
           d.act,
           d.ctrl,
           d.act_dot,
           d.actuator_force,
+          m.opt.disableflags & DisableBit.CLAMPCTRL,
         ],
         outputs=[vel],
       )
